@@ -651,3 +651,123 @@ def _pmaddubsw(I, ins, args, cond):
 
 for _n in ("llvm.x86.ssse3.pmadd.ub.sw.128", "llvm.x86.avx2.pmadd.ub.sw", "llvm.x86.avx512.pmaddubs.w.512"):
     TABLE[_n] = _pmaddubsw
+
+
+# ---------------------------------------------------------------------------
+# AVX-512 write-masking: result lane i = k[i] ? computed : passthrough
+
+def _masked_lanes(lanes, pt, k, eb):
+    if T.all_ones(k) or (k[0] == "const" and k[2] & ((1 << len(lanes)) - 1) == (1 << len(lanes)) - 1):
+        return T.concat(lanes)
+    out = []
+    for i, l in enumerate(lanes):
+        out.append(T.select(T.slice_(k, i, 1), l, T.slice_(pt, i * eb, eb)))
+    return T.concat(out)
+
+
+def _sae_ok(args, idx):
+    # rounding / SAE operand: 4 = current direction (8 = suppress exceptions only, same values)
+    return len(args) <= idx or (args[idx][0] == "const" and args[idx][2] in (4, 8))
+
+
+def _getexp(eb):
+    def h(I, ins, args, cond):
+        x, pt, k = args[0], args[1], args[2]
+        if not _sae_ok(args, 3):
+            return NotImplemented
+        return _masked_lanes([T.op("x86.getexp", eb, T.slice_(x, i * eb, eb)) for i in range(x[1] // eb)], pt, k, eb)
+    return h
+
+
+def _getmant(eb):
+    def h(I, ins, args, cond):
+        x, imm, pt, k = args[0], args[1], args[2], args[3]
+        if imm[0] != "const" or not _sae_ok(args, 4):
+            return NotImplemented
+        return _masked_lanes([T.op("x86.getmant", eb, T.slice_(x, i * eb, eb), imm[2] & 15)
+                              for i in range(x[1] // eb)], pt, k, eb)
+    return h
+
+
+def _scalef(eb):
+    def h(I, ins, args, cond):
+        a, b, pt, k = args[0], args[1], args[2], args[3]
+        if len(args) > 4 and not (args[4][0] == "const" and args[4][2] == 4):
+            return NotImplemented          # static rounding override
+        return _masked_lanes([T.op("x86.scalef", eb, T.slice_(a, i * eb, eb), T.slice_(b, i * eb, eb))
+                              for i in range(a[1] // eb)], pt, k, eb)
+    return h
+
+
+def _fixupimm(eb, zeroing):
+    def h(I, ins, args, cond):
+        a, b, c, imm, k = args[0], args[1], args[2], args[3], args[4]
+        if imm[0] != "const" or not _sae_ok(args, 5):
+            return NotImplemented
+        lanes = [T.op("x86.fixupimm", eb, T.slice_(a, i * eb, eb), T.slice_(b, i * eb, eb),
+                      T.slice_(c, i * eb, 32)) for i in range(a[1] // eb)]
+        pt = T.const(a[1], 0) if zeroing else a
+        return _masked_lanes(lanes, pt, k, eb)
+    return h
+
+
+def _range(eb):
+    def h(I, ins, args, cond):
+        a, b, imm, pt, k = args[0], args[1], args[2], args[3], args[4]
+        if imm[0] != "const" or (imm[2] & 2) or not _sae_ok(args, 5):
+            return NotImplemented
+        return _masked_lanes([T.op("x86.range", eb, T.slice_(a, i * eb, eb), T.slice_(b, i * eb, eb), imm[2] & 15)
+                              for i in range(a[1] // eb)], pt, k, eb)
+    return h
+
+
+for _w in ("128", "256", "512"):
+    for _s, _eb in (("ps", 32), ("pd", 64)):
+        TABLE["llvm.x86.avx512.mask.getexp.%s.%s" % (_s, _w)] = _getexp(_eb)
+        TABLE["llvm.x86.avx512.mask.getmant.%s.%s" % (_s, _w)] = _getmant(_eb)
+        TABLE["llvm.x86.avx512.mask.scalef.%s.%s" % (_s, _w)] = _scalef(_eb)
+        TABLE["llvm.x86.avx512.mask.fixupimm.%s.%s" % (_s, _w)] = _fixupimm(_eb, False)
+        TABLE["llvm.x86.avx512.maskz.fixupimm.%s.%s" % (_s, _w)] = _fixupimm(_eb, True)
+        TABLE["llvm.x86.avx512.mask.range.%s.%s" % (_s, _w)] = _range(_eb)
+
+
+# VPERMI2B/W/D/Q/PS/PD (two-table permute) and VPERMB/W/D/Q (one table): the index selects an element
+# of the concatenated tables, modulo the number of entries
+def _permi2(eb):
+    def h(I, ins, args, cond):
+        a, idx, b = args
+        tab = T.concat([a, b])
+        n = a[1] // eb
+        out = []
+        for i in range(n):
+            ix = T.slice_(idx, i * eb, eb)
+            if ix[0] == "const":
+                out.append(T.slice_(tab, (ix[2] & (2 * n - 1)) * eb, eb))
+            else:
+                out.append(T.op("x86.permx", eb, tab, ix))
+        return T.concat(out)
+    return h
+
+
+def _permvar(eb):
+    def h(I, ins, args, cond):
+        a, idx = args
+        n = a[1] // eb
+        out = []
+        for i in range(n):
+            ix = T.slice_(idx, i * eb, eb)
+            if ix[0] == "const":
+                out.append(T.slice_(a, (ix[2] & (n - 1)) * eb, eb))
+            else:
+                out.append(T.op("x86.permx", eb, a, ix))
+        return T.concat(out)
+    return h
+
+
+for _w in ("128", "256", "512"):
+    for _s, _eb in (("qi", 8), ("hi", 16), ("d", 32), ("q", 64), ("ps", 32), ("pd", 64)):
+        TABLE["llvm.x86.avx512.vpermi2var.%s.%s" % (_s, _w)] = _permi2(_eb)
+    for _s, _eb in (("qi", 8), ("hi", 16), ("si", 32), ("di", 64), ("sf", 32), ("df", 64)):
+        TABLE["llvm.x86.avx512.permvar.%s.%s" % (_s, _w)] = _permvar(_eb)
+TABLE["llvm.x86.avx2.permd"] = _permvar(32)
+TABLE["llvm.x86.avx2.permps"] = _permvar(32)
